@@ -341,6 +341,87 @@ def _expand_dispatch(prog, fi, node):
     return changed[0]
 
 
+def _stores(fn_node, name):
+    return [n for n in ast.walk(fn_node) if isinstance(n, ast.Name) and n.id == name and isinstance(n.ctx, (ast.Store, ast.Del))] + \
+           [a for a in ast.walk(fn_node) if isinstance(a, ast.arg) and a.arg == name]
+
+
+def _is_chain(e, min_depth=0):
+    d = 0
+    while isinstance(e, ast.Attribute):
+        e, d = e.value, d + 1
+    return isinstance(e, ast.Name) and d >= min_depth
+
+
+def _chain_base(e):
+    while isinstance(e, ast.Attribute):
+        e = e.value
+    return e.id
+
+
+def _pos(n):
+    return (getattr(n, "lineno", 0), getattr(n, "col_offset", 0))
+
+
+def _propagate_accessors(prog, node):
+    """Copy propagation of two exact aliasings (analysis only), so that rules written for `getattr(f.args, name)` read the same
+    code after `args_ = f.args` / `get = partial(getattr, f.args)` were introduced:
+      * a local bound once to an attribute chain `a.b[.c]` whose base is not rebound afterwards, and which is not itself
+        assigned through (`a.b = ...`) afterwards: its loads become the chain (the same object);
+      * a local bound once to `partial(getattr, <chain>)` under the same conditions: `p(x)` becomes `getattr(<chain>, x)`.
+    Returns True when something was rewritten."""
+    changed = False
+    own = [n for n in _own_walk(node.body)]
+    assigns = [st for st in own if isinstance(st, ast.Assign) and len(st.targets) == 1 and isinstance(st.targets[0], ast.Name)]
+    for st in assigns:
+        nm = st.targets[0].id
+        if len(_stores(node, nm)) != 1:
+            continue
+        v = st.value
+        kind = None
+        if _is_chain(v, 1):
+            kind, chain = "alias", v
+        elif isinstance(v, ast.Call) and isinstance(v.func, (ast.Name, ast.Attribute)) and len(v.args) == 2 and not v.keywords \
+                and prog.ext_name(v.func, v) == "functools.partial" and isinstance(v.args[0], ast.Name) and prog.lookup(v.args[0].id, v) == ("builtin", "getattr") \
+                and _is_chain(v.args[1]):
+            kind, chain = "accessor", v.args[1]
+        if kind is None:
+            continue
+        base = _chain_base(chain)
+        if any(_pos(x) > _pos(st) for x in _stores(node, base)):
+            continue
+        cd = ast.dump(chain)
+        if any(isinstance(a, ast.Attribute) and isinstance(a.ctx, (ast.Store, ast.Del)) and ast.dump(a)[:len(cd)] == cd and _pos(a) > _pos(st) for a in ast.walk(node)):
+            continue
+        uses = [n for n in ast.walk(node) if isinstance(n, ast.Name) and n.id == nm and isinstance(n.ctx, ast.Load) and _pos(n) > _pos(st)]
+        if kind == "accessor" and not all(isinstance(u._parent, ast.Call) and u._parent.func is u and 1 <= len(u._parent.args) <= 2 and not u._parent.keywords for u in uses):
+            continue
+        for u in uses:
+            par = u._parent
+            if kind == "alias":
+                new = clone(chain)
+                ast.copy_location(new, u)
+                for x in ast.walk(new):
+                    ast.copy_location(x, u)
+                tgt, holder = u, par
+            else:
+                new = ast.Call(func=ast.Name(id="getattr", ctx=ast.Load()), args=[clone(chain)] + par.args, keywords=[])
+                for x in [new, new.func] + list(ast.walk(new.args[0])):
+                    ast.copy_location(x, par)
+                tgt, holder = par, par._parent
+            for f in holder._fields:
+                val = getattr(holder, f, None)
+                if val is tgt:
+                    setattr(holder, f, new)
+                elif isinstance(val, list):
+                    for i, x in enumerate(val):
+                        if x is tgt:
+                            val[i] = new
+            _link(holder, getattr(holder, "_parent", None))
+            changed = True
+    return changed
+
+
 def _link(node, parent):
     node._parent = parent
     for ch in ast.iter_child_nodes(node):
@@ -361,9 +442,13 @@ def inlined(prog, fi):
     new_fi.inlined_helpers = []
     new_fi.original = fi
     changed_any = False
-    for _ in range(MAX_ROUNDS):
+    for round_ in range(MAX_ROUNDS):
         changed = False
         _prepare(prog, new_fi, node, fi)
+        # positions are comparable only while every statement still comes from this function: before anything is inlined
+        if round_ == 0 and _propagate_accessors(prog, node):
+            changed = True
+            _prepare(prog, new_fi, node, fi)
         if _expand_dispatch(prog, fi, node):
             changed = True
             _prepare(prog, new_fi, node, fi)
